@@ -374,6 +374,23 @@ def run_cli(tmpdir, k, blocks, names, case):
         shutil.rmtree(d, ignore_errors=True)
 
 
+def run_case(tmpdir, tag, bins, blocks, names, case):
+    try:
+        if case["fn"] == "sanitize_records":
+            return run_sanitize(bins, names, case)
+        if case["fn"] == "sanitize_pixels":
+            return run_pixels(bins, case)
+        if case["fn"] == "ctor":
+            return run_ctor(bins, case)
+        if case.get("opts", {}).get("nproc", 1) > 1:
+            return "deferred"          # a process pool cannot be started from a pool worker: the parent runs it
+        return run_cli(tmpdir, tag, blocks, names, case)
+    except TimeoutError:
+        raise
+    except Exception as e:  # noqa: BLE001
+        return "crash:" + type(e).__name__ + ":" + str(e)[:200]
+
+
 def table_worker(job):
     tmpdir, k, widths, cases = job
     import signal
@@ -386,24 +403,89 @@ def table_worker(job):
         blocks = blocks_from_widths(widths)
         names = names_for(len(widths))
         bins = table_from_blocks(blocks)
-        out = []
-        for j, case in enumerate(cases):
-            try:
-                if case["fn"] == "sanitize_records":
-                    out.append(run_sanitize(bins, names, case))
-                elif case["fn"] == "sanitize_pixels":
-                    out.append(run_pixels(bins, case))
-                elif case["fn"] == "ctor":
-                    out.append(run_ctor(bins, case))
-                elif case.get("opts", {}).get("nproc", 1) > 1:
-                    out.append("deferred")          # a process pool cannot be started from a pool worker: the parent runs it
-                else:
-                    out.append(run_cli(tmpdir, f"{k}_{j}", blocks, names, case))
-            except TimeoutError:
-                raise
-            except Exception as e:  # noqa: BLE001
-                out.append("crash:" + type(e).__name__ + ":" + str(e)[:200])
-        return out
+        return [run_case(tmpdir, f"{k}_{j}", bins, blocks, names, case) for j, case in enumerate(cases)]
+    except TimeoutError:
+        return "timeout"
+    finally:
+        signal.alarm(0)
+
+
+# ------------------------------------------------------------------ histories: consecutive ingestions in ONE process
+def random_composition(rng, L, k):
+    cuts = sorted(rng.sample(range(1, L), k - 1)) if k > 1 else []
+    return [b_ - a_ for a_, b_ in zip([0] + cuts, cuts + [L])]
+
+
+def family_same_layout(rng, size=3):
+    """bin tables that agree in chromosome names, chromosome lengths AND total number of bins but differ in their bin
+    boundaries (and in how the bins are shared out among the chromosomes); the first one is fixed-width where possible"""
+    b = rng.choice([2, 3, 5, 10])
+    nc = rng.choice([2, 3])
+    base = [[b] * rng.randint(1, 3) + [rng.randint(1, b)] for _ in range(nc)]
+    base[0] = [b] * rng.randint(2, 3) + [rng.randint(1, b)]
+    lengths = [sum(w) for w in base]
+    nb = sum(len(w) for w in base)
+    fam, seen = [base], {str(base)}
+    tries = 0
+    while len(fam) < size and tries < 200:
+        tries += 1
+        counts = [1] * nc
+        for _ in range(nb - nc):
+            cand = [c for c in range(nc) if counts[c] < lengths[c]]
+            counts[rng.choice(cand)] += 1
+        widths = [random_composition(rng, lengths[c], counts[c]) for c in range(nc)]
+        if str(widths) not in seen:
+            seen.add(str(widths))
+            fam.append(widths)
+    return fam
+
+
+def history_cases(hist):
+    """per table of the family: the ingestions to run, a pure function of the history description"""
+    r = random.Random(hist["hseed"])
+    out = []
+    for hidx, widths in enumerate(hist["family"]):
+        cases = gen_exhaustive_edges(widths)[:: 3]
+        cases += gen_record_cases(r, widths, 5, True)
+        cases += gen_pixel_cases(r, widths, 1)
+        cases += [c for c in gen_cli_cases(r, widths, 4) if c["opts"].get("nproc", 1) == 1]
+        cases += [c for c in gen_unlisted_runs(r, widths, ["cload_tabix"]) if c["opts"].get("nproc", 1) == 1]
+        for cidx, c in enumerate(cases):
+            c.update(history={k_: hist[k_] for k_ in ("family", "order", "hseed")}, hidx=hidx, cidx=cidx)
+            c["label"] = "history:" + hist["order"] + ":" + c["label"]
+        out.append(cases)
+    return out
+
+
+def history_worker(job):
+    """ONE process: the ingestions of all tables of a family, alternating between the tables / table after table / in reverse;
+    each table's bin frame is built once and reused by all its ingestions"""
+    tmpdir, k, hist = job
+    import signal
+
+    def _alarm(*_):
+        raise TimeoutError("per-history wall-clock limit")
+    signal.signal(signal.SIGALRM, _alarm)
+    signal.alarm(300)
+    try:
+        per = history_cases(hist)
+        nt = len(per)
+        tabs = []
+        for widths in hist["family"]:
+            blocks = blocks_from_widths(widths)
+            tabs.append((table_from_blocks(blocks), blocks, names_for(len(widths))))
+        if hist["order"] == "alternate":
+            m = max(len(cs) for cs in per)
+            sched = [(i, c) for c in range(m) for i in range(nt) if c < len(per[i])]
+        elif hist["order"] == "blocks":
+            sched = [(i, c) for i in range(nt) for c in range(len(per[i]))]
+        else:
+            sched = [(i, c) for i in reversed(range(nt)) for c in range(len(per[i]))]
+        outs = [[None] * len(cs) for cs in per]
+        for (i, c) in sched:
+            bins, blocks, names = tabs[i]
+            outs[i][c] = run_case(tmpdir, f"h{k}_{i}_{c}", bins, blocks, names, per[i][c])
+        return outs
     except TimeoutError:
         return "timeout"
     finally:
@@ -914,7 +996,7 @@ def judge(ctx, case, impl, model):
     fn = case["fn"]
     ob, ta = int(o["one_based"]), o["tril"]
     nb = sum(len(w) for w in case["widths"])
-    rec = {k: case[k] for k in ("fn", "widths", "opts", "chunks") if k in case}
+    rec = {k: case[k] for k in ("fn", "widths", "opts", "chunks", "history", "hidx", "cidx") if k in case}
     if "values" in case:
         rec["values"] = case["values"]
     if isinstance(impl, str) and not impl.startswith("exit:"):       # crash / timeout of the whole case
@@ -1059,6 +1141,18 @@ def run(ctx):
     for case in D2_CASES + D27_CASES + REPR_CASES + AUDIT_CASES + CLI_CORPUS:
         per_table.setdefault(canon_w(case["widths"]), [case["widths"], []])[1].append(case)
     plan = list(per_table.values())
+    n_plain = len(plan)
+
+    # histories: state carried between ingestions in one process (same chromosomes and bin count, different bin boundaries)
+    hists = []
+    for rep in range(3 if thorough else 1):
+        fam = family_same_layout(rng)
+        for order in ("alternate", "blocks", "reversed"):
+            hists.append({"family": fam, "order": order, "hseed": rng.randrange(1 << 30)})
+    hjobs = [(str(ctx.tmp), hk, hist) for hk, hist in enumerate(hists)]
+    for hist in hists:
+        for widths, cases in zip(hist["family"], history_cases(hist)):
+            plan.append([widths, cases])
 
     exprs = []
     for widths, cases in plan:
@@ -1066,12 +1160,15 @@ def run(ctx):
         exprs.append(f"valid_blocks_b {bl}")
         for c in cases:
             exprs.append(f"(let blocks := {bl} in {model_expr(c)})")
-    wjobs = [(str(ctx.tmp), k, widths, cases) for k, (widths, cases) in enumerate(plan)]
+    wjobs = [(str(ctx.tmp), k, widths, cases) for k, (widths, cases) in enumerate(plan[:n_plain])]
     pool = mp.get_context("fork").Pool(4)
     try:
+        async_h = pool.map_async(history_worker, hjobs, chunksize=1)
         async_res = pool.map_async(table_worker, wjobs, chunksize=1)
         model = C.coq_eval("From Cooler Require Import Model.Ingest.", exprs, tmpdir=ctx.tmp / "ingest", shard=150, jobs=3)
         impl = async_res.get(timeout=3000)
+        for hist, res in zip(hists, async_h.get(timeout=3000)):
+            impl.extend(["timeout"] * len(hist["family"]) if res == "timeout" else res)
     finally:
         pool.terminate()
 
@@ -1112,7 +1209,17 @@ def replay(ctx, case):
     if chunk is not None:
         case["chunks"] = [chunk]
     case.setdefault("label", "replay")
-    res = table_worker((str(ctx.tmp), 0, widths, [case]))
+    if "history" in case:       # re-run the whole history in one process, judge the recorded ingestion
+        outs = history_worker((str(ctx.tmp), 0, case["history"]))
+        if outs == "timeout":
+            return False
+        hcase = history_cases(case["history"])[case["hidx"]][case["cidx"]]
+        if chunk is not None:
+            ci = hcase["chunks"].index(chunk) if chunk in hcase["chunks"] else None
+        res = [outs[case["hidx"]][case["cidx"]]]
+        case = hcase
+    else:
+        res = table_worker((str(ctx.tmp), 0, widths, [case]))
     if res == "timeout":
         return False
     if res[0] == "deferred":
